@@ -1,5 +1,6 @@
 import Lean.Data.Json
 import SdJwt.Data.J
+import SdJwt.Impl.JsonText
 /-!
 Executable-only glue between text and the model's `J`: parsing goes through Lean core's
 `Lean.Json` (trusted, shares nothing with `serde_json`), printing is a small compact printer.
@@ -49,7 +50,7 @@ def numStr (m : Int) (e : Nat) : String :=
     (if neg then "-" else "") ++ String.ofList ip ++ "." ++ String.ofList fp
 
 /-- `sp`: separator style 0 = compact, 1 = ", " / ": ", 2 = newline-ish whitespace everywhere -/
-partial def printJ (sp : Nat := 0) : J → String
+partial def printJLayout (sp : Nat) : J → String
   | .null => "null"
   | .bool true => "true"
   | .bool false => "false"
@@ -58,13 +59,19 @@ partial def printJ (sp : Nat := 0) : J → String
   | .arr xs =>
     let sep := if sp = 0 then "," else if sp = 1 then ", " else " ,\n "
     let (o, c) := if sp = 2 then ("[ ", " ]") else ("[", "]")
-    o ++ sep.intercalate (xs.map (printJ sp)) ++ c
+    o ++ sep.intercalate (xs.map (printJLayout sp)) ++ c
   | .obj ms =>
     let sep := if sp = 0 then "," else if sp = 1 then ", " else " ,\n "
     let col := if sp = 0 then ":" else if sp = 1 then ": " else " :\t"
     let (o, c) := if sp = 2 then ("{ ", " }") else ("{", "}")
-    o ++ sep.intercalate (ms.map fun (k, v) => escStr k ++ col ++ printJ sp v) ++ c
+    o ++ sep.intercalate (ms.map fun (k, v) => escStr k ++ col ++ printJLayout sp v) ++ c
 
+/-- compact text (`sp = 0`) is the MODEL's printer `JText.render` (`Impl/JsonText.lean`, proved to be read back
+by `JText.parseAll`); the other layouts (white space as other issuers may write it) are printed here -/
+def printJ (sp : Nat := 0) (j : J) : String :=
+  if sp = 0 then String.ofList (JText.render j) else printJLayout sp j
+
+#guard printJ 0 (.obj [("a", .num 15 1), ("b", .arr [.num (-5) 3, .str "x\"\n"])]) == printJLayout 0 (.obj [("a", .num 15 1), ("b", .arr [.num (-5) 3, .str "x\"\n"])])
 #guard printJ 0 (.obj [("a", .num 15 1), ("b", .arr [.num (-5) 3, .str "x\"\n"])]) == "{\"a\":1.5,\"b\":[-0.005,\"x\\\"\\n\"]}"
 #guard (parseJ "{\"b\":1,\"a\":[true,null]}").map (printJ 0) == some "{\"a\":[true,null],\"b\":1}"
 
